@@ -308,6 +308,34 @@ def _history(w, h, res, dry, out):
                           'numprocesses=%s' % (K_CHECKS, name, len(k.live(tag)), target),
                           live=k.live(tag), target=target, steps=real_steps)
             continue
+        # the target itself: what the accepted incr / decr / set requests add up to (a refused one changes nothing)
+        model = conf['numprocesses']
+        for _i, mid_, cmd_, props_ in r.mids:
+            if model is None or not isinstance(props_, dict) or props_.get('name', '').lower() != name.lower():
+                continue
+            if cmd_ not in ('incr', 'decr', 'set'):
+                continue
+            rep_ = w.reply(mid_)
+            if rep_ is None:
+                model = None                       # never answered: C05 / C06 own that
+            elif rep_.get('status') != 'ok':
+                reason = str(rep_.get('reason'))
+                if not ('already running' in reason or 'restarting' in reason or 'ingleton' in reason):
+                    model = None                   # failed part-way: what it left behind is not specified here
+            elif cmd_ == 'set':
+                if 'numprocesses' in (props_.get('options') or {}):
+                    model = max(0, int(props_['options']['numprocesses']))
+            elif not conf.get('singleton'):
+                nb = props_.get('nb', 1)
+                model = max(0, model + nb if cmd_ == 'incr' else model - nb)
+        if model is None:
+            res.obs['target_model_unknown(not judged)'] += 1
+        else:
+            res.obs['targets_compared_with_the_accepted_requests'] += 1
+            if model != target:
+                res.violation('C01/target-differs-from-the-accepted-requests',
+                              'watcher %s: configured numprocesses %s, the accepted incr/decr/set requests add up to %s, the '
+                              'daemon reports (and runs) %s' % (name, conf['numprocesses'], model, target), steps=real_steps)
         if target < 0 or (conf.get('singleton') and target > 1):
             res.violation('C01/range', 'numprocesses=%s out of range (singleton=%s)' % (target, conf.get('singleton')))
         if name in fresh:
